@@ -718,7 +718,7 @@ class ListenerItem(ListenerBase):
 
         if remove:
             handler = next.unregister
-        elif self.deferred:
+        elif self.deferred and name not in object.__dict__:
             return INVALID_DESTINATION
         else:
             handler = next.register
@@ -813,7 +813,7 @@ class ListenerItem(ListenerBase):
 
         if remove:
             handler = next.unregister
-        elif self.deferred:
+        elif self.deferred and name not in object.__dict__:
             return INVALID_DESTINATION
         else:
             handler = next.register
